@@ -247,7 +247,7 @@ func runScenario(sc Scenario) (out *outcome) {
 		lis := &syncListener{rec: rec}
 		var ds junosync.DataSource = src
 		if sc.ViaFeeder {
-			ds = junosync.NewFeederGatewayDataSource(bc, newSNAdapter(src))
+			ds = &feederDS{DataSource: junosync.NewFeederGatewayDataSource(bc, newSNAdapter(src)), rec: rec}
 		}
 		var poll time.Duration
 		if sc.Poll {
